@@ -2,7 +2,7 @@ import S3V.Thm.XmlWf
 import S3V.Thm.XmlToken
 import S3V.Thm.XmlUtf8
 /-!
-Attributes (code since 1dc4ea8): what `Deserializer::attribute` — quick-xml's attribute iterator, attribute-value
+Attributes (code since 680006e): what `Deserializer::attribute` — quick-xml's attribute iterator, attribute-value
 normalisation, `unescape` — reads from a start tag is what `start_of` / `attr_value` wrote into it.
 -/
 namespace S3V.Xml
